@@ -132,6 +132,17 @@ def cases(tier):
                              {"kind": "time", "t": 2 * 3600, "link": "x", "attr": "setting", "value": s0}]
             s["id"] = dict(s["id"], setting_control=[s0, s1])
             out.append(s)
+    # a link that is CLOSED when the run starts and opened by a time control after the first step: from then on it obeys
+    # the law of its kind (every kind of the isolation rig that has a closed variant)
+    for lk in iso_links(tier):
+        if lk["status"] != "CLOSED":
+            continue
+        for dh in (20.0, -20.0):
+            s = iso_spec(lk, dh, "default")
+            s["opts"].update(dur=2 * 3600)
+            s["controls"] = [{"kind": "time", "t": 3600, "link": "x", "value": "ACTIVE" if lk["t"] in ("PRV", "PSV", "FCV", "TCV") else "OPEN"}]
+            s["id"] = dict(s["id"], opened_at=3600)
+            out.append(s)
     # ... and by a conditional control on a junction pressure (evaluated AFTER the solve of a step: the step has to be
     # solved again with the new setting).  R(80)-pa-J1; J1-x-J2-pb-R2(20); J1-pc-J3(patterned demand, its pressure drops
     # below the threshold in the peak period).  The law is judged with the REPORTED setting.
